@@ -79,11 +79,16 @@ type Case struct {
 	RootPrefix string            `json:"rootPrefix,omitempty"`
 	Sep        string            `json:"sep,omitempty"`
 	RootTags   map[string]string `json:"rootTags,omitempty"`
+	// NullPlain (mode both): the plain reporter is the library's own tally.NullStatsReporter - what
+	// goes to the plain reporter is dropped, timers still reach the cached reporter at once, once,
+	// under their scope's name and tags
+	NullPlain bool `json:"nullPlain,omitempty"`
 }
 
 func gen(t *rapid.T) Case {
 	c := Case{Mode: rapid.SampledFrom([]string{"plain", "cached", "both", "test"}).Draw(t, "mode")}
 	c.Caps = rapid.SampledFrom([]int{0, 0, 0, 1, 2, 3}).Draw(t, "caps")
+	c.NullPlain = c.Mode == "both" && rapid.IntRange(0, 2).Draw(t, "nullPlain") == 0
 	if rapid.IntRange(0, 2).Draw(t, "rootcfg?") == 0 {
 		c.RootPrefix = rapid.SampledFrom([]string{"", "svc", "a.b", "x_"}).Draw(t, "rootPrefix")
 		if c.Mode != "test" {
@@ -165,6 +170,10 @@ func run(c Case) (pbt.Outcome, error) {
 	case "both":
 		opts.Reporter = &rec.Stats{L: log, Child: 1, Caps: rec.CapsOf(c.Caps)}
 		opts.CachedReporter = &rec.Cached{L: log, Child: 2, Caps: rec.CapsOf(c.Caps)}
+		if c.NullPlain {
+			opts.Reporter = tally.NullStatsReporter
+			out.Classes = append(out.Classes, "null-plain-reporter-and-a-cached-one")
+		}
 	}
 	opts.Prefix, opts.Separator, opts.Tags = c.RootPrefix, c.Sep, c.RootTags
 	if c.Mode == "test" {
@@ -470,6 +479,9 @@ func run(c Case) (pbt.Outcome, error) {
 				errs.Addf("op %d: Exec latency delivered with tags %v, scope tags %v", oi, ev[0].Tags, ms.Tags)
 			} else if d := time.Duration(ev[0].I); ev[0].Name != latName || d < slept-time.Microsecond || d > t3.Sub(t0) {
 				errs.Addf("op %d: Exec latency %v under %q, want within [%v,%v] under %q", oi, d, ev[0].Name, slept, t3.Sub(t0), latName)
+			}
+			if c.NullPlain {
+				continue // the call's counters go to the plain reporter, which drops them
 			}
 			mark2 := log.Len()
 			tally.VerifReportOnce(root)
